@@ -15,9 +15,22 @@ CHECK = {'level': 'exploration',
          'kept its connection then offends through ApplyPenalty 1-30 / a burst above the rate limit / BanPeer / a bad or unknown-procedure envelope and '
          'must be disconnected at that penalty (IP total already at/above the threshold), both peers re-dial and are dialled during the ban, ban awaited, '
          'both reconnect, small penalties of both add up from a clean score; 8 fixed scripts of that shape run in every tier (TestRegressSharedIPPeers). '
+         'EVERY PROCEDURE HAS ITS OWN COUNTER: all nodes serve three rate-limited procedures (echo, echo2, echo3) with their own limits 2-6 and penalties; legal-only '
+         'scenarios (rate interval 250 ms / 600 ms / 1.5 s) send interleaved mixes over all three in a drawn order, each procedure within or exactly at ITS limit while the sum '
+         'over the procedures exceeds single limits, before the first reset tick of the rate limiter, after observed resets and in both directions: oracle = no stored score '
+         'anywhere (also watched while every request is in flight: a false ban of 1-2 s would be over before a timeout), every request answered, still connected, nobody listed. '
+         'Mirror scenarios (1 in 10, interval 1 s): after an OBSERVED reset edge (a marker message is polled until its counter drops to zero) one procedure receives limit+1 '
+         'messages next to legal amounts of the others, all within that counter window (given up, never judged, when the window is nearly used up): exactly one penalty of that '
+         'procedure, repeated after further resets until the penalties add up to the ban, then the usual ban consequences. Offence scenarios exceed the limit of any of the three procedures. '
+         'PEERS WITH 2-3 SIMULTANEOUS CONNECTIONS (1 scenario in 5; multiconn_test.go): the peer consists of libp2p hosts sharing one key (one host per connection; on 127.0.0.1 / ::1), '
+         'the first connection opened by the peer (inbound at the node) or by the node (outbound), the others by the peer; well-formed requests over every connection, then an offence of '
+         'each kind over a drawn connection (undecodable / unknown-procedure envelope on the request or response protocol, rate-limit overrun spread over the connections, handler-issued '
+         'ApplyPenalty in steps / BanPeer): oracle = once the stored total reaches the threshold the IP is listed and NO connection to the peer remains (ConnsToPeer == 0 and not in '
+         'ConnectedPeers within 3 s), re-dials from each of its sockets and the own dial of the node are refused while the ban is certain, accepted after it, request served, clean score, '
+         'small penalty exact. Fixed scripts of both kinds run in every tier (TestRegressMultiConnPeers: 8, TestRegressRateLimitPerProcedure: 3). '
          'Non-trivial = (timed gater) an IP crossed the threshold by accumulation, was queried while certainly banned and again '
          'after the ban was seen over; (untimed gater) crossed by accumulation and queried while banned; (end-to-end) a ban caused by traffic with a '
-         'refused dial during the ban and an accepted one after it, or a legal-only scenario that filled a rate window exactly; (concurrent) >= 2 '
+         'refused dial during the ban and an accepted one after it (multi-connection peer: banned while holding >= 2 connections, all closed), or a legal-only scenario that filled a rate window exactly or whose mix over the procedures exceeded a single limit; (concurrent) >= 2 '
          'racing penalties reaching the threshold. Distinct by digest of the concrete operation list. '
          '(c) INVALID SYNC REQUESTS against the REAL sync handlers (TestSyncRequests, TestRegressSyncRequests): the penalising side is a real consensus '
          'node (harness/node: Executer + consensus/sync Syncer over an in-memory chain of 1-6 blocks, started p2p.Connection on which Executer.Init '
@@ -50,7 +63,8 @@ CHECK = {'level': 'exploration',
                  'several peers on one IP: the peer whose penalty leaves the IP total at/above the threshold must be disconnected at that penalty '
                  '(asserted when the stored total is seen to change to >= threshold while that peer was connected); that OTHER peers of the IP keep '
                  'an already open connection until their own next penalty is the engine\'s behaviour and is recorded, not asserted',
-                 '"the limit": messages of one procedure received from one peer (requests and responses) per counter window; all nodes use the same limit',
+                 '"the limit": messages of ONE procedure received from one peer ID (requests and responses, over whichever connection) per counter window; every procedure has its own limit; all nodes use the same limits (mirror scenarios: only the penalising node)',
+                 'Connection.ApplyPenalty/BanPeer apply the amount once per open connection of the peer (recorded, not judged): for a peer with n connections a rise by 1..n times the amount is accepted',
                  'an end-to-end scenario is reported only if it fails in 3 consecutive attempts without a process stall > 250 ms (else inconclusive)',
                  'a "ban should be over by now" verdict is final only if it persists over 600 further process heartbeats (>= 3 s)'],
  'quick': [{'pkg': 'c18', 'run': 'TestGaterUntimed|TestGaterConcurrent|TestRegress', 'checks': 3000, 'timeout': 600},
